@@ -72,6 +72,12 @@ PROP_ASSUMPTIONS = {
         "the HashSet `seen` of detect_fragment_cycles is modelled as a list (membership only)",
         "fragment definitions are validated once each when spread directly from the operation (harness spreads every fragment at the top level)",
     ],
+    "C22": [
+        "hash seeds are observable only through iteration over HashMap/HashSet (lookups/inserts/removals are seed-independent); IndexMap/IndexSet iterate in insertion order",
+        "distinct variable definitions of one operation start at distinct byte offsets (distinct syntax nodes)",
+        "slice::sort_by_key is stable (modelled by List.mergeSort)",
+        "translator/hashsites.py finds every iteration over a hash-ordered collection (token-level, scoped names; no type inference)",
+    ],
     "C16": [
         "Model/BuiltinScalars.lean hand-written from schema/validation.rs; IndexMap = association list, HashSet iteration = arbitrary permutation",
         "type references are exported by the harness from fields, arguments, input fields and directive definition arguments (what record_type_ref sees)",
